@@ -118,14 +118,14 @@ def terminal_chars(src):
     if re.sub(r'\s|\|\|', '', rest.replace('c.is_ascii_alphanumeric()', '')):
         raise Anchor('is_regular_terminal_char: unexpected clause %r' % rest.strip())
     loop = term[term.index('let mut term'):]
-    esc = need(re.search(r'while let Some\(after\) = input\.strip_prefix\(\'\\\\\'\) \{(.*?)\n        \}\n', loop, re.S),
-               'terminal escape loop').group(1)
+    esc = need(re.search(r"while (?:let Some\(after\) = input\.strip_prefix\('\\\\'\)|input\.starts_with\('\\\\'\)) \{(.*?)\n        \}\n",
+                         loop, re.S), 'terminal escape loop').group(1)
     sw = need(re.search(r'input\.starts_with\(\[(.*?)\]\)', esc, re.S), 'escapable set').group(1)
     escapable = [rust_char(x) for x in re.findall(CHAR_LIT, sw)]
     if re.sub(r'[\s,]', '', re.sub(CHAR_LIT, '', sw)):
         raise Anchor('escapable set: unexpected text')
     # how the loop continues after the backslash / after the escaped character
-    a = need(re.search(r'^\s*input = ([^;]*after[^;]*);', esc, re.M), 'terminal: continuation after backslash').group(1)
+    a = need(re.search(r'^\s*input = ([^;]*);', esc, re.M), 'terminal: continuation after backslash').group(1)
     b = need(re.search(r'consumed \+= 1;\s*input = ([^;]*);', esc, re.S), 'terminal: continuation after escaped char').group(1)
 
     def resets(expr, what):
